@@ -190,6 +190,9 @@ class Module:
       self.tree = ast.parse(self.src, filename=path)
     except SyntaxError as e:
       raise AnalysisError(f'{rel}: does not parse: {e}') from e
+    if os.environ.get('SA_NO_NORMALIZE') != '1':
+      from sa import normalize  # pylint: disable=g-import-not-at-top
+      self.tree = normalize.normalize_module(self.tree)
     self.imports: dict[str, str] = {}
     self.functions: dict[str, FuncInfo] = {}
     self.classes: dict[str, ClassInfo] = {}
@@ -312,7 +315,7 @@ class Module:
     return self.assigns[name][-1]
 
   def seg(self, node: ast.AST) -> str:
-    return ast.get_source_segment(self.src, node) or ast.unparse(node)
+    return ast.unparse(node)   # (the tree is in canonical form: positions no longer delimit the text)
 
 
 def _direct_parent_func(outer: ast.FunctionDef, inner: ast.FunctionDef) -> bool:
@@ -360,6 +363,18 @@ class Repo:
         m = Module(self, path, rel, self.overlay.get(rel))
       self.modules[m.dotted] = m
       self.by_short[m.short] = m
+    if os.environ.get('SA_NO_NORMALIZE') != '1':
+      fresh = [m for m in self.modules.values() if m.repo is self]
+      if base is not None and self._signatures() != base._signatures():   # pylint: disable=protected-access
+        # a variant that changes a parameter list: the call sites of the shared modules were put into positional form for
+        # the OLD parameter order - parse them again
+        for key, m in list(self.modules.items()):
+          if m.repo is not self:
+            m2 = Module(self, m.path, m.rel, None)
+            self.modules[key] = m2
+            self.by_short[m2.short] = m2
+        fresh = list(self.modules.values())
+      self._normalize_calls(fresh)
     self.json_files: dict[str, Any] = {}
     self.json_errors: dict[str, str] = {}
     self.json_text: dict[str, str] = {}
@@ -376,6 +391,110 @@ class Repo:
           self.json_files[rel] = json.loads(text)
         except (OSError, ValueError) as e:
           self.json_errors[rel] = str(e)
+
+  def _signatures(self) -> dict:
+    return {f.fq: tuple(f.pos_params) for m in self.modules.values() for f in m.functions.values()}
+
+  def _normalize_calls(self, modules) -> None:
+    """Canonical argument form (part of sa/normalize.py's contract): at every call that resolves by name to ONE
+    repository function, keyword arguments that continue the positional prefix become positional -
+    f(a, y=b, z=c) -> f(a, b, c). Rules that read "the second argument" see it however the call was written."""
+    for m in modules:
+      scopes = [(None, [st for st in m.tree.body if not isinstance(st, (ast.FunctionDef, ast.AsyncFunctionDef, ast.ClassDef))])]
+      scopes += [(f, f.node.body) for f in m.functions.values()]
+      for f, body in scopes:
+        local = set()
+        if f is not None:
+          a = f.node.args
+          local = {x.arg for x in a.posonlyargs + a.args + a.kwonlyargs}
+          for st in body:
+            for n in ast.walk(st):
+              if isinstance(n, ast.Name) and isinstance(n.ctx, ast.Store):
+                local.add(n.id)
+        stack = list(body)
+        while stack:
+          n = stack.pop()
+          if isinstance(n, (ast.FunctionDef, ast.AsyncFunctionDef, ast.ClassDef)):
+            continue
+          stack.extend(ast.iter_child_nodes(n))
+          if not isinstance(n, ast.Call) or not n.keywords or any(k.arg is None for k in n.keywords) or any(isinstance(x, ast.Starred) for x in n.args):
+            continue
+          names = self._callee_params(m, f, n.func, local)
+          if names is None:
+            continue
+          kw = {k.arg: k for k in n.keywords}
+          i = len(n.args)
+          while i < len(names) and names[i] in kw:
+            n.args.append(kw[names[i]].value)
+            n.keywords.remove(kw[names[i]])
+            i += 1
+
+  def _callee_params(self, m, f, func_expr, local) -> Optional[list]:
+    """Positional parameter names of the single repository function `func_expr` denotes (without self when bound)."""
+    root = func_expr
+    while isinstance(root, ast.Attribute):
+      root = root.value
+    if not isinstance(root, ast.Name):
+      return None
+    fi, bound = None, False
+    chain = []
+    e = func_expr
+    while isinstance(e, ast.Attribute):
+      chain.append(e.attr)
+      e = e.value
+    chain.reverse()
+    start = None
+    if root.id == 'self' and f is not None and f.cls is not None and chain:
+      start = Sym('instance', f.cls)
+    elif root.id in local and f is not None and chain:
+      # a local assigned once, from a constructor call of a repository class
+      defs = [n for n in ast.walk(f.node) if isinstance(n, ast.Assign) and any(isinstance(t, ast.Name) and t.id == root.id for t in n.targets)]
+      stores = sum(1 for n in ast.walk(f.node) if isinstance(n, ast.Name) and n.id == root.id and isinstance(n.ctx, ast.Store))
+      if len(defs) == 1 and stores == 1 and isinstance(defs[0].value, ast.Call) and root.id not in {a.arg for a in f.node.args.args + f.node.args.kwonlyargs}:
+        try:
+          c = self.resolve_expr(m, defs[0].value.func)
+        except AnalysisError:
+          c = None
+        if c is not None and c.kind == 'class':
+          start = Sym('instance', c.obj)
+    if start is None and root.id in local and f is not None and chain:
+      # a parameter annotated with a repository class
+      prm = next((a for a in f.node.args.args + f.node.args.kwonlyargs if a.arg == root.id), None)
+      stores = sum(1 for n in ast.walk(f.node) if isinstance(n, ast.Name) and n.id == root.id and isinstance(n.ctx, ast.Store))
+      if prm is not None and prm.annotation is not None and stores == 0:
+        t = self.annotation_type(m, prm.annotation)
+        if t is not None and t.kind == 'instance':
+          start = t
+    if start is not None:
+      sym = start
+      try:
+        for a_ in chain:
+          sym = self.resolve_attr(sym, a_)
+      except AnalysisError:
+        return None
+      if sym.kind == 'bound' and isinstance(sym.obj, FuncInfo):
+        fi, bound = sym.obj, (sym.obj.is_method or getattr(sym.obj, 'is_classmethod', False))
+      elif sym.kind == 'func' and isinstance(sym.obj, FuncInfo):
+        fi, bound = sym.obj, False
+    elif root.id in local or root.id in ('self', 'cls'):
+      return None
+    else:
+      try:
+        sym = self.resolve_expr(m, func_expr)
+      except AnalysisError:
+        return None
+      if sym.kind == 'func' and isinstance(sym.obj, FuncInfo):
+        fi = sym.obj
+        bound = getattr(fi, 'is_classmethod', False) and fi.cls is not None
+      elif sym.kind == 'bound' and isinstance(sym.obj, FuncInfo):
+        fi, bound = sym.obj, True
+    if fi is None:
+      return None
+    a = fi.node.args
+    if a.vararg is not None or a.posonlyargs:
+      return None
+    names = [x.arg for x in a.args]
+    return names[1:] if bound else names
 
   def read_text(self, rel: str) -> str:
     if rel in self.overlay:
